@@ -13,7 +13,8 @@ LineLinks == {{"r1", "r2"}, {"r2", "r3"}}
 \* the three routers on one LAN (one shared interface: plain split horizon), h behind r3 on its own interface
 LanIf == [x \in TriNodes |-> IF x = "h" THEN "h" ELSE "lan"]
 LanIfs == {"lan", "h"}
-Ph12 == {1, 2}
-Ph2 == {2}
+Ph12 == [R3 -> {1, 2}]
+\* the alignment in which r2's periodic update coincides with r3's triggered update about the dead host
+PhCount == {[r \in R3 |-> IF r = "r2" THEN 1 ELSE 2]}
 Dt1 == {1}
 =============================================================================
